@@ -378,6 +378,7 @@ def length_mutations(seed: bytes):
             bytes([0]), rder.enc_len(max(0, cl - 1)), rder.enc_len(cl + 1),
             rder.enc_len(cl + 2), bytes([0x7F]), bytes([0x80]),
             bytes([0x81, cl & 0xFF]), bytes([0x82, 0, cl & 0xFF]),
+            bytes([0x83, 0, cl >> 8 & 0xFF, cl & 0xFF]), bytes([0x84, 0, 0, cl >> 8 & 0xFF, cl & 0xFF]),
             bytes([0x84, 0xFF, 0xFF, 0xFF, 0xFF]), bytes([0x81]),
             bytes([0x88]) + b"\x7f" * 8, rder.enc_len(len(seed)),
             rder.enc_len(1 << 16),
